@@ -15,10 +15,18 @@ enum Ev {
 struct LogRead {
     data: Vec<u8>,
     pos: usize,
+    /// index of the request that fails with an error (usize::MAX: none) and its kind
+    fail_at: usize,
+    fail_how: u8,
+    n: usize,
     log: Rc<RefCell<Vec<Ev>>>,
 }
 impl Read for LogRead {
     fn read(&mut self, buf: &mut [u8]) -> io::Result<usize> {
+        self.n += 1;
+        if self.n - 1 == self.fail_at {
+            return refusal(self.fail_how.max(1));
+        }
         self.log.borrow_mut().push(Ev::In);
         if self.pos < self.data.len() {
             buf[0] = self.data[self.pos];
@@ -31,14 +39,26 @@ impl Read for LogRead {
 }
 struct LogWrite {
     refuse_at: usize,
+    /// how the byte is refused: 0 = Ok(0), else an error of some kind (Interrupted and WouldBlock
+    /// are the ones retrying helpers such as `write_all` treat specially)
+    refuse_how: u8,
     n: usize,
     log: Rc<RefCell<Vec<Ev>>>,
+}
+fn refusal(how: u8) -> io::Result<usize> {
+    match how {
+        0 => Ok(0),
+        1 => Err(io::Error::from(io::ErrorKind::Other)),
+        2 => Err(io::Error::from(io::ErrorKind::Interrupted)),
+        3 => Err(io::Error::from(io::ErrorKind::WouldBlock)),
+        _ => Err(io::Error::from(io::ErrorKind::BrokenPipe)),
+    }
 }
 impl Write for LogWrite {
     fn write(&mut self, buf: &[u8]) -> io::Result<usize> {
         self.n += 1;
         if self.n - 1 == self.refuse_at {
-            return Ok(0);
+            return refusal(self.refuse_how);
         }
         self.log.borrow_mut().push(Ev::Out(buf[0]));
         Ok(1)
@@ -54,6 +74,11 @@ const TAPE: usize = 1 << 18;
 /// `refuse_at`: index of the output byte that is refused (the run stops there); `no_input`: the
 /// first input request fails (the run stops there)
 fn canon(code: &[u8], input: &[u8], bits: u32, max_steps: usize, refuse_at: usize, no_input: bool) -> (Vec<Ev>, bool, Vec<u64>) {
+    canon2(code, input, bits, max_steps, refuse_at, if no_input { 0 } else { usize::MAX })
+}
+
+/// `in_fail_at`: index of the input request that fails (the run stops there, nothing is stored)
+fn canon2(code: &[u8], input: &[u8], bits: u32, max_steps: usize, refuse_at: usize, in_fail_at: usize) -> (Vec<Ev>, bool, Vec<u64>) {
     let mask: u64 = if bits == 64 { u64::MAX } else { (1u64 << bits) - 1 };
     let mut tape = vec![0u64; TAPE];
     let mut p = TAPE / 2;
@@ -86,7 +111,7 @@ fn canon(code: &[u8], input: &[u8], bits: u32, max_steps: usize, refuse_at: usiz
                 ev.push(Ev::Out(tape[p] as u8));
             }
             b',' => {
-                if no_input {
+                if inp == in_fail_at {
                     halted = true;
                     break;
                 }
@@ -171,9 +196,13 @@ fn balanced(code: &[u8]) -> bool {
 
 /// run the real interpreter; budget None = unlimited
 fn real<C: CellType>(code: &str, input: &[u8], budget: Option<usize>, refuse_at: usize, no_input: bool) -> (Vec<Ev>, bool, Vec<u64>) {
+    real2::<C>(code, input, budget, refuse_at, 0, no_input, usize::MAX, 0)
+}
+
+fn real2<C: CellType>(code: &str, input: &[u8], budget: Option<usize>, refuse_at: usize, refuse_how: u8, no_input: bool, in_fail_at: usize, in_fail_how: u8) -> (Vec<Ev>, bool, Vec<u64>) {
     let log = Rc::new(RefCell::new(Vec::new()));
-    let reader: Option<Box<dyn Read>> = if no_input { None } else { Some(Box::new(LogRead { data: input.to_vec(), pos: 0, log: log.clone() })) };
-    let writer: Option<Box<dyn Write>> = Some(Box::new(LogWrite { refuse_at, n: 0, log: log.clone() }));
+    let reader: Option<Box<dyn Read>> = if no_input { None } else { Some(Box::new(LogRead { data: input.to_vec(), pos: 0, fail_at: in_fail_at, fail_how: in_fail_how, n: 0, log: log.clone() })) };
+    let writer: Option<Box<dyn Write>> = Some(Box::new(LogWrite { refuse_at, refuse_how, n: 0, log: log.clone() }));
     let mut cxt = Context::<C>::new(reader, writer);
     let exec = InplaceInterpreter::<C>::create(code, 0).unwrap();
     let fin = match budget {
@@ -223,6 +252,20 @@ fn one<C: CellType>(code: &str, t: &mut [Tally; 3], w: &str) {
             let (fev, _, _) = canon(bytes, input, C::BITS, 300_000, usize::MAX, true);
             let (ev, _, _) = real::<C>(code, input, None, usize::MAX, true);
             t[2].check(ev == fev, || format!("{} program {:?}, no input source: events {:?}, canonical {:?}", w, code, ev, fev));
+            // refusals / failures that are errors of various kinds (a retrying helper must not be used)
+            if bytes.len() <= 4 {
+                for how in 1..=4u8 {
+                    let (fev, _, _) = canon(bytes, input, C::BITS, 300_000, 1, false);
+                    let (ev, _, _) = real2::<C>(code, input, None, 1, how, false, usize::MAX, 0);
+                    t[2].check(ev == fev, || format!("{} program {:?} input {:?}, output byte 1 refused with error kind #{}: events {:?}, canonical {:?}", w, code, input, how, ev, fev));
+                    let (fev, _, _) = canon(bytes, input, C::BITS, 300_000, 0, false);
+                    let (ev, _, _) = real2::<C>(code, input, None, 0, how, false, usize::MAX, 0);
+                    t[2].check(ev == fev, || format!("{} program {:?} input {:?}, output byte 0 refused with error kind #{}: events {:?}, canonical {:?}", w, code, input, how, ev, fev));
+                    let (fev, _, _) = canon2(bytes, input, C::BITS, 300_000, usize::MAX, 1);
+                    let (ev, _, _) = real2::<C>(code, input, None, usize::MAX, 0, false, 1, how);
+                    t[2].check(ev == fev, || format!("{} program {:?} input {:?}, input request 1 fails with error kind #{}: events {:?}, canonical {:?}", w, code, input, how, ev, fev));
+                }
+            }
         }
     }
 }
